@@ -28,7 +28,7 @@ KindsOfN(n) == IF n = "resources" THEN {"resources", "templates"} ELSE {n}
 
 M0 == [off |-> {}, want |-> <<>>, era |-> <<>>, closed |-> {}, names |-> <<>>, ver |-> <<>>, cv |-> <<>>,
        chgB |-> <<>>, chgE |-> <<>>, sends |-> <<>>, acnt |-> <<>>, ucnt |-> <<>>, handled |-> <<>>,
-       ent |-> <<>>, usub |-> <<>>, unsubbing |-> {}, calls |-> <<>>, updB |-> 0, open |-> {}]
+       ent |-> <<>>, usub |-> <<>>, unsubbing |-> {}, subbing |-> {}, calls |-> <<>>, updB |-> 0, open |-> {}]
 
 Get(f, k, d) == IF k \in DOMAIN f THEN f[k] ELSE d
 Put(f, k, v) == [x \in DOMAIN f \cup {k} |-> IF x = k THEN v ELSE f[x]]
@@ -58,9 +58,14 @@ OnConnect(e) ==
 \* is one the client asked for (its *ListChangedHandler options) and the server acknowledged
 OnAck(e) ==
   LET asked == IF e.s \in DOMAIN m.want THEN AsSet(m.want[e.s]) ELSE {}
-      granted == AsSet(e.allowed) \cap asked IN
+      granted == AsSet(e.allowed) \cap asked
+      \* URI subscriptions the client is waiting for (the acknowledgement may be processed late, e.g. behind a
+      \* notification that the client is slow to handle)
+      uris == {u \in AsSet(e.uris) : <<e.s, u>> \in m.subbing} IN
   m' = [m EXCEPT !.ent = [x \in DOMAIN m.ent \cup {<<e.s, n>> : n \in granted} |->
-                            IF x[1] = e.s /\ x[2] \in granted /\ Get(m.ent, x, 0) = 0 THEN e.seq ELSE m.ent[x]]]
+                            IF x[1] = e.s /\ x[2] \in granted /\ Get(m.ent, x, 0) = 0 THEN e.seq ELSE m.ent[x]],
+                 !.usub = [u \in DOMAIN m.usub \cup uris |-> IF u \in uris THEN Get(m.usub, u, {}) \cup {e.s} ELSE m.usub[u]],
+                 !.subbing = {x \in m.subbing : ~(x[1] = e.s /\ x[2] \in uris)}]
 
 OnChangeBegin(e) == m' = [m EXCEPT !.chgB = Put(m.chgB, e.n, e.seq)]
 OnChangeEnd(e) ==
@@ -74,7 +79,8 @@ OnUpdatedEnd(e) ==
   LET to == {s \in DOMAIN m.era : \E i \in DOMAIN Get(m.sends, <<s, e.u>>, <<>>) : m.sends[<<s, e.u>>][i].seq > m.updB}
       sub == Get(m.usub, e.u, {})
       \* a session whose unsubscribe the server is still processing (its UnsubscribeHandler has not returned) may get it
-      may == sub \cup {s \in DOMAIN m.era : <<s, e.u>> \in m.unsubbing} IN
+      \* ... and so may one whose subscribe request the server has taken but whose acknowledgement the client has not seen
+      may == sub \cup {s \in DOMAIN m.era : <<s, e.u>> \in m.unsubbing \/ <<s, e.u>> \in m.subbing} IN
   /\ \A s \in to \ may : Fail2("C18.UpdatedExactlySubscribers", s, "extra")
   /\ \A s \in sub \ to : Fail2("C18.UpdatedExactlySubscribers", s, "missing")
   /\ m' = m
@@ -116,15 +122,16 @@ OnListEnd(e) ==
         THEN TRUE ELSE Fail2("C18.Fresh", e.s, e.item))
   /\ m' = m
 
-OnSubEnd(e) == m' = IF e.ok THEN [m EXCEPT !.usub = Put(m.usub, e.u, Get(m.usub, e.u, {}) \cup {e.s})] ELSE m
+OnSubBegin(e) == m' = [m EXCEPT !.subbing = @ \cup {<<e.s, e.u>>}]
+OnSubEnd(e) == m' = IF e.ok THEN [m EXCEPT !.usub = Put(m.usub, e.u, Get(m.usub, e.u, {}) \cup {e.s}), !.subbing = @ \ {<<e.s, e.u>>}] ELSE m
 OnUnsubBegin(e) == m' = [m EXCEPT !.usub = Put(m.usub, e.u, Get(m.usub, e.u, {}) \ {e.s}),
-                                  !.unsubbing = @ \cup {<<e.s, e.u>>}]
+                                  !.unsubbing = @ \cup {<<e.s, e.u>>}, !.subbing = @ \ {<<e.s, e.u>>}]
 OnSrvUnsubExit(e) == m' = [m EXCEPT !.unsubbing = @ \ {<<e.s, e.u>>}]
 
 OnCloseBegin(e) ==
   m' = [m EXCEPT !.ent = [x \in DOMAIN m.ent |-> IF x[1] = e.s THEN 0 ELSE m.ent[x]],
                  !.usub = [u \in DOMAIN m.usub |-> m.usub[u] \ {e.s}], !.open = @ \ {e.s},
-                 !.unsubbing = {x \in m.unsubbing : x[1] # e.s}]
+                 !.unsubbing = {x \in m.unsubbing : x[1] # e.s}, !.subbing = {x \in m.subbing : x[1] # e.s}]
 OnCloseEnd(e) == m' = [m EXCEPT !.closed = @ \cup {e.s}]
 
 \* subscriptions of closed sessions are forgotten (snapshot of the server's maps, taken under its lock)
@@ -174,6 +181,7 @@ Step(e) ==
     [] e.ev = "notif.user"    -> OnUser(e)
     [] e.ev = "list.begin"    -> OnListBegin(e)
     [] e.ev = "list.end"      -> OnListEnd(e)
+    [] e.ev = "sub.begin"     -> OnSubBegin(e)
     [] e.ev = "sub.end"       -> OnSubEnd(e)
     [] e.ev = "unsub.begin"   -> OnUnsubBegin(e)
     [] e.ev = "srv.unsub.exit" -> OnSrvUnsubExit(e)
